@@ -312,18 +312,20 @@ func runC11(p *core.Program, r *core.Report) {
 			params := ssa.Value(fn.Params[s.firstIdx])
 			// inner index j: phi (or, when captured by a closure, a local cell) with init 1, step +1, bounded by len(params)
 			var jPhi *ssa.Phi
+			var jCands []*ssa.Phi
 			var jCell *ssa.Alloc
 			for _, in := range path.Instrs(fn) {
 				switch y := in.(type) {
 				case *ssa.Phi:
 					if phiStep(y) == +1 {
-						if k, ok := path.IntConst(phiInit(y)); ok && k == 1 {
-							jPhi = y
+						// j from 1 (from 0 the first input is checked against itself as well)
+						if k, ok := path.IntConst(phiInit(y)); ok && (k == 1 || k == 0) && y.Type().String() == "int" {
+							jCands = append(jCands, y)
 						}
 					}
 				case *ssa.Alloc:
 					if y.Heap || true {
-						inits, steps, other := 0, 0, 0
+						inits, steps, other, zeros := 0, 0, 0, 0
 						for _, rf := range *y.Referrers() {
 							st, ok := rf.(*ssa.Store)
 							if !ok || st.Addr != ssa.Value(y) {
@@ -340,13 +342,25 @@ func runC11(p *core.Program, r *core.Report) {
 									other++
 								}
 							} else if k, ok := path.IntConst(st.Val); ok && k == 0 {
-								// "var j int" zero initialisation
+								// "var j int" zero initialisation (or a scan that starts at 0 and
+								// checks the first input against itself as well)
+								zeros++
 							} else {
 								other++
 							}
 						}
-						if inits == 1 && steps == 1 && other == 0 {
+						if (inits == 1 || (inits == 0 && zeros >= 1)) && steps == 1 && other == 0 {
 							jCell = y
+						}
+					}
+				}
+			}
+			// the candidate whose loop test compares it with len(params)
+			for _, cand := range jCands {
+				if iff := path.BlockIf(cand.Block()); iff != nil {
+					if cd, ok := path.CondOf(iff); ok && cd.X == ssa.Value(cand) {
+						if x.path(cd.Y) == "len("+params.Name()+")" || isLenOfUnspilled(cd.Y, params) {
+							jPhi = cand
 						}
 					}
 				}
